@@ -102,7 +102,7 @@ def prepare(case):
     spec = GS.Spec(case["spec"])
     df = default_fields_for(case["world"]["salt"]) if case.get("default_resolved", True) else None
     sync_schema, eff = H.make_schema(spec, case["mode"], wrap=submit_wrap(case["world"]["salt"]) if case.get("default_resolved", True) else None,
-                                     default_fields=df)
+                                     default_fields=df, root_defaults=case.get("root_defaults", False))
     modes, sw = modes_for(case["world"]["salt"]), submit_wrap(case["world"]["salt"])
 
     def async_wrap(resolver, tn, fd):
@@ -111,7 +111,7 @@ def prepare(case):
         if modes(tn, fd["name"]) == "coro":
             return SR.async_wrap(resolver, tn, fd)
         return sw(resolver, tn, fd) if case.get("default_resolved", True) else resolver
-    async_schema, _ = H.make_schema(spec, case["mode"], wrap=async_wrap, default_fields=df)
+    async_schema, _ = H.make_schema(spec, case["mode"], wrap=async_wrap, default_fields=df, root_defaults=case.get("root_defaults", False))
     req = case["request"]
     try:
         if validate_ast(sync_schema, parse(req["text"])).errors:
@@ -195,12 +195,14 @@ def cases(draw, op_kind=None, null_hazards=("argument",)):
     mode = draw(st.sampled_from(["code", "sdl"]))
     eff = H.sdl_view(spec) if mode == "sdl" else spec
     req = draw(GD.requests(eff, op_kind=op_kind, multi_op=False, null_hazards=null_hazards))
-    world = {"salt": draw(st.integers(0, 10 ** 6)), "p_err": draw(st.sampled_from([0, 0, 7, 11])),
+    world = {"salt": draw(st.integers(0, 10 ** 6)), "p_err": draw(st.sampled_from([0, 0, 7, 11, 6])),
              "p_null": draw(st.sampled_from([0, 5, 9])), "p_null_item": draw(st.sampled_from([0, 4]))}
     nboom = draw(st.sampled_from([0, 0, 0, 1, 1, 2]))
     boom_idx = [draw(st.integers(0, 50)) for _ in range(nboom)]
     schedules = [draw(schedule_st()) for _ in range(draw(st.integers(1, 3)))]
-    return {"spec": spec, "mode": mode, "request": req, "world": world, "boom_idx": boom_idx, "schedules": schedules}
+    # root types too may leave fields to the default resolver (methods of the root value)
+    return {"spec": spec, "mode": mode, "request": req, "world": world, "boom_idx": boom_idx, "schedules": schedules,
+            "root_defaults": draw(st.booleans())}
 
 
 def shard(ctx):
